@@ -176,6 +176,21 @@ func report(eng *Engine, o runOpts, results []*FuncResult, all []*Obligation, tL
 		writeJSON(path, map[string]any{"property": o.prop, "obligation": "subset:" + e, "status": "undecided", "detail": e})
 		vioLines = append(vioLines, fmt.Sprintf("VIOLATION property=%s replay=%s obligation=subset:%s no-failing-input-found", o.prop, path, strings.SplitN(e, ":", 2)[0]))
 	}
+	var boundedRep []map[string]any
+	for _, br := range eng.boundedResults {
+		boundedRep = append(boundedRep, map[string]any{"name": br.Name, "label": "bounded (not a proof; not counted as discharged)", "bound": br.Bound, "status": br.Status, "cases": br.Cases, "time_s": br.Secs, "output": br.Output})
+		if br.Status != "held" {
+			violations++
+			path := filepath.Join(replayDir, sanitize(br.Name)+".json")
+			writeJSON(path, map[string]any{"property": o.prop, "obligation": br.Name, "kind": "bounded", "bound": br.Bound, "status": br.Status, "output": br.Output,
+				"replay": "the failing input is printed by the bounded harness (bounded/" + o.prop + "); run ./check " + o.prop + " quick again to reproduce"})
+			line := fmt.Sprintf("VIOLATION property=%s replay=%s obligation=%s status=%s", o.prop, path, br.Name, br.Status)
+			if br.Status != "violated" {
+				line += " no-failing-input-found"
+			}
+			vioLines = append(vioLines, line)
+		}
+	}
 	if len(all) == 0 {
 		violations++
 		vioLines = append(vioLines, fmt.Sprintf("VIOLATION property=%s replay=%s obligation=vacuity:no-obligations no-failing-input-found", o.prop, filepath.Join(replayDir, "vacuity.json")))
@@ -220,6 +235,7 @@ func report(eng *Engine, o runOpts, results []*FuncResult, all []*Obligation, tL
 			"obligation_list": reports,
 			"samples":       samples,
 			"contract_source": contractSources(eng),
+			"bounded_stand_ins": boundedRep,
 		},
 		"assumptions": append(base, tb...),
 		"wall_s":      time.Since(t0).Seconds(),
